@@ -210,3 +210,38 @@ Definition CH_matProduct (mode : nat) (TL : mat) (a : dense) : dense :=
   | S (S (S (S O))) => tab n1 n2 (fun r i => sumn (S i) (fun j => getv a r j * TL i j))
   | _ => tab n1 n2 (fun r i => sumn (n2 - i) (fun k => getv a r (i + k)%nat * TL (i + k)%nat i))
   end.
+
+(* ------------------------------------------------------------------ square / symmetric helpers, unchecked vector kernel *)
+(* VectorHelper::addInPlace(constvect in, vect dest) VectorHelper.cpp:1246: no size check, dest[i] += in[i] for i < in.size() *)
+Definition VH_addInPlace_span (src dest : list Q) : res (list Q) :=
+  if (length src <=? length dest)%nat
+  then Ok (map (fun p => fst p + snd p) (combine (firstn (length src) dest) src) ++ skipn (length src) dest)
+  else UB 4%Z.
+(* AMatrixSquare::trace AMatrixSquare.cpp:74 *)
+Definition SQ_trace (d : dense) : Q := fold_left (fun s i => s + getv d i i) (seq 0 (nr d)) 0.
+(* AMatrixSquare::normVec AMatrixSquare.cpp:186 (None = TEST on a size mismatch) *)
+Definition SQ_normVec (d : dense) (v : list Q) : option Q :=
+  if negb (nr d =? length v)%nat then None
+  else Some (fold_left (fun s p => s + nth (fst p) v 0 * getv d (fst p) (snd p) * nth (snd p) v 0) (rowmajor (nr d) (nc d)) 0).
+(* AMatrixSquare::prodByDiagInPlace AMatrixSquare.cpp:211, modes 0 (c) and 2 (1/c); c is indexed without any size check *)
+Definition SQ_prodByDiag (sym : bool) (d : dense) (mode : nat) (c : list Q) : res dense :=
+  if negb (nr d <=? length c)%nat then UB 4%Z
+  else Ok (fold_left (fun s p => setValue sym s (fst p) (snd p)
+                         (getv s (fst p) (snd p) * (match mode with O => nth (snd p) c 0 | _ => 1 / nth (snd p) c 0 end)))
+                     (rowmajor (nr d) (nr d)) d).
+(* AMatrixSquare::prodDiagByVector AMatrixSquare.cpp:118 *)
+Definition SQ_prodDiagByVector (sym : bool) (d : dense) (v : list Q) : res dense :=
+  if negb (length v =? nr d)%nat then Exn
+  else Ok (fold_left (fun s i => setValue sym s i i (getv s i i * nth i v 0)) (seq 0 (nr d)) d).
+(* MatrixSquareSymmetric::createFromTLTU MatrixSquareSymmetric.cpp:313: sum over k <= min(i,j) of TL(i,k).TL(j,k) *)
+Definition SS_createFromTLTU (neq : nat) (tl : list Q) : dense :=
+  fold_left (fun s p => setValue true s (fst p) (snd p)
+               (sumn neq (fun k => if (fst p <? k)%nat || (snd p <? k)%nat then 0
+                                   else nth (tl_index neq (fst p) k) tl 0 * nth (tl_index neq (snd p) k) tl 0)))
+            (rowmajor neq neq) (tab neq neq mzero).
+(* MatrixSquareSymmetric::createFromTriangle MatrixSquareSymmetric.cpp:341 *)
+Definition SS_createFromTriangle (mode : nat) (neq : nat) (tl : list Q) : dense :=
+  fold_left (fun s p => match mode with
+                        | O => if (snd p <=? fst p)%nat then setValue true s (fst p) (snd p) (nth (tl_index neq (fst p) (snd p)) tl 0) else s
+                        | _ => if (fst p <=? snd p)%nat then setValue true s (fst p) (snd p) (nth (tl_index neq (snd p) (fst p)) tl 0) else s
+                        end) (rowmajor neq neq) (tab neq neq mzero).
